@@ -322,8 +322,15 @@ func (f *readFile) handleReadByte(ctx context.Context, b byte,
 	default:
 		if message.Len() >= config.Server.MaxLineLength {
 			if !f.warnedAboutLongLine {
-				f.serverMessages <- dlog.Common.Warn(f.filePath,
-					"Long log line, splitting into multiple lines") + "\n"
+				// Don't block for ever on the warning when the session is gone:
+				// nobody reads the server messages any more, and this reader
+				// would keep its file and its limiter slot.
+				select {
+				case f.serverMessages <- dlog.Common.Warn(f.filePath,
+					"Long log line, splitting into multiple lines") + "\n":
+				case <-ctx.Done():
+					return abortReading, message
+				}
 				f.warnedAboutLongLine = true
 			}
 			message.WriteByte('\n')
